@@ -154,6 +154,10 @@ def run_property(pid, tier, seed):
                 outs.append(f.result())
             except Exception as ex:
                 outs.append(dict(kind='crash', error=f'worker crashed: {type(ex).__name__}: {ex}'))
+    from . import models
+    bad = models.selftest_axioms(seed)
+    if bad:
+        outs.append(dict(kind='crash', error=f'intrinsic axiom of an uninterpreted builtin fails natively: {bad[:3]}'))
     return report.finish(pid, tier, seed, cfg, kf, outs, units_by_id, time.time() - t0)
 
 
